@@ -5,6 +5,7 @@ package commitlog
 // own words), and records every observation for the comparison with the Coq model.
 
 import (
+	"strings"
 	"bytes"
 	"context"
 	"fmt"
@@ -689,11 +690,16 @@ func vRunC16Case(out *vOut, r *vRand, id int, stats map[string]int) {
 // so the callback's appends are "new segments appended while a clean runs".
 type vHookLogger struct {
 	logger.Logger
-	hook func()
+	hook   func()
+	prefix string // "" = "Cleaning log" (the delete cleaner); "Compacting log" = the compactor
 }
 
 func (h *vHookLogger) Debugf(f string, a ...interface{}) {
-	if h.hook != nil && len(f) >= 12 && f[:12] == "Cleaning log" {
+	pf := h.prefix
+	if pf == "" {
+		pf = "Cleaning log"
+	}
+	if h.hook != nil && strings.HasPrefix(f, pf) {
 		hk := h.hook
 		h.hook = nil
 		hk()
@@ -944,14 +950,41 @@ func vRunC09Case(out *vOut, r *vRand, id int, stats map[string]int) {
 
 // doCompact runs Clean() on a log with Compact = true and judges the outcome with an independently
 // computed survivor set (the property's own words).
-func (c *vLogCase) doCompact() {
+func (c *vLogCase) doCompact() { c.doCompactDuring(nil) }
+
+// doCompactDuring runs Clean() on a compacted log; batches (if any) are appended when the
+// compactor starts, i.e. after Clean took its snapshot of the segment list.
+func (c *vLogCase) doCompactDuring(batches [][]*Message) {
 	hw := c.l.HighWatermark()
 	segs := c.l.Segments()
 	lastBase := segs[len(segs)-1].BaseOffset
 	nsegs := len(segs)
 	var err error
+	var during []vM
+	fired := false
+	if batches != nil && c.hook != nil {
+		c.hook.hook = func() {
+			fired = true
+			for _, b := range batches {
+				c.doAppend(b)
+				during = append(during, c.ops[len(c.ops)-1])
+				c.ops = c.ops[:len(c.ops)-1]
+			}
+		}
+	}
 	p := vCatch(func() { err = c.l.Clean() })
-	c.ops = append(c.ops, vM{"op": "cleanc", "ttl": 0})
+	if c.hook != nil {
+		c.hook.hook = nil
+	}
+	if fired {
+		c.ops = append(c.ops, vM{"op": "cleancroll", "ttl": 0, "during": during})
+		c.stats["compact-during-appends"]++
+		if len(c.l.Segments()) > 0 && c.l.Segments()[len(c.l.Segments())-1].BaseOffset != lastBase {
+			c.stats["compact-during-roll"]++
+		}
+	} else {
+		c.ops = append(c.ops, vM{"op": "cleanc", "ttl": 0})
+	}
 	c.stats["compact"]++
 	if p != "" || err != nil {
 		c.violation("compact-failed", fmt.Sprintf("Clean: %v %s", err, p))
@@ -1110,10 +1143,15 @@ func (l *commitLog) OldestOffsetOrZero() int64 {
 func vRunC08Case(out *vOut, r *vRand, id int, stats map[string]int) {
 	maxb := int64([]int{70, 100, 150, 220}[r.intn(4)])
 	opts := Options{MaxSegmentBytes: maxb, Compact: true, CompactMaxGoroutines: []int{1, 2, 10}[r.intn(3)]}
+	lg := logger.NewLogger(0)
+	lg.Silent(true)
+	hk := &vHookLogger{Logger: lg, prefix: "Compacting log"}
+	opts.Logger = hk
 	c := vNewLogCase(out, id, "c08", opts, stats)
 	if c.l == nil {
 		return
 	}
+	c.hook = hk
 	// key pool: nil, empty, and a few short keys
 	pool := [][]byte{nil, {}, []byte("a"), []byte("b")}
 	switch r.intn(4) {
@@ -1126,7 +1164,7 @@ func vRunC08Case(out *vOut, r *vRand, id int, stats map[string]int) {
 	}
 	nops := 6 + r.intn(20)
 	for i := 0; i < nops && !c.viol; i++ {
-		switch r.pick(10, 3, 3, 2, 1) {
+		switch r.pick(10, 3, 3, 2, 1, 2) {
 		case 0:
 			n := 1 + r.pick(5, 3, 2)
 			var msgs []*Message
@@ -1142,6 +1180,19 @@ func vRunC08Case(out *vOut, r *vRand, id int, stats map[string]int) {
 		case 2:
 			c.layout()
 			c.doCompact()
+			c.layout()
+		case 5:
+			// a compaction during which new batches arrive (and usually roll a segment)
+			var batches [][]*Message
+			for b := 0; b < 1+r.intn(3); b++ {
+				var msgs []*Message
+				for j := 0; j < 1+r.intn(3); j++ {
+					msgs = append(msgs, c.genMsg(r, pool))
+				}
+				batches = append(batches, msgs)
+			}
+			c.layout()
+			c.doCompactDuring(batches)
 			c.layout()
 		case 3:
 			nw := c.l.NewestOffset()
